@@ -5,6 +5,7 @@ Everything is stated over the regenerated `selTable`; the only facts used about 
 each closed by `decide` on the table as generated now.
 -/
 import OG.C07.Simple8b
+import OG.C07.LemmasBytes
 
 namespace OG.C07
 
@@ -81,6 +82,7 @@ theorem canPack_one_sixty (v : Nat) (vs : List Nat) (hv : v < 2 ^ 60) : canPack 
 
 theorem canPack_len {src : List Nat} {n b : Nat} (h : canPack src n b = true) : n ≤ src.length := by
   unfold canPack at h
+  simp only [take_length_lt_iff] at h
   by_cases hl : src.length < n
   · simp [hl] at h
   · omega
@@ -89,6 +91,7 @@ theorem canPack_zero {src : List Nat} {n : Nat} (h : canPack src n 0 = true) :
     src.take n = List.replicate n 1 := by
   have hl := canPack_len h
   unfold canPack at h
+  simp only [take_length_lt_iff] at h
   have hn : ¬ src.length < n := by omega
   simp [hn] at h
   rw [List.eq_replicate_iff]
@@ -98,6 +101,7 @@ theorem canPack_pos {src : List Nat} {n b : Nat} (hb : b ≠ 0) (h : canPack src
     ∀ v ∈ src.take n, v < 2 ^ b := by
   have hl := canPack_len h
   unfold canPack at h
+  simp only [take_length_lt_iff] at h
   have hn : ¬ src.length < n := by omega
   simp [hn, hb] at h
   intro v hv
